@@ -21,7 +21,8 @@ MANIFEST = dict(
         "depend on the batch partition (meanvar_batch_independent, linreg_batch_independent); unit-variance normaliser: output mean 0 / variance 1 on "
         "non-constant columns, constant columns mapped to 0 (unitvariance_output, sqrt specified); unit-interval normaliser: range [0,1] attained, "
         "constant columns to 1/2 for the repaired trainer, and a witness theorem that the pinned source maps a constant column v to 1/2 - v (F-C15-1); "
-        "whitening: covariance t*I given the factor specification C*Cov*C^T = I (whitening_output, linear_image_covariance); PCA: orthonormal directions "
+        "whitening: covariance t*I given the factor specification C*Cov*C^T = I (whitening_output, linear_image_covariance), which ZCA's Q*diag(1/sqrt D)*Q^T "
+        "meets given the eigen-solver specification (zca_output, regular covariance); PCA: orthonormal directions "
         "=> decoder(encoder(x)) is idempotent, its residual is orthogonal to all directions and it is the closest point of mean+span (pca_projection); "
         "small-sample branch: eigenvectors of XX^T/l lift to eigenvectors of the covariance with the same eigenvalue and squared norm l*lambda "
         "(pca_small_sample_agrees, pca_small_sample_agrees_model), encoded training data have covariance diag(eigenvalues) (pca_encoded_covariance); "
@@ -417,7 +418,7 @@ def run(ctx):
     r = ctx.rng.fork("c15")
     corpus = load_corpus()
     ctx.cov["corpus_cases"] = len(corpus)
-    per = 120 if ctx.quick else 1500
+    per = 400 if ctx.quick else 4000
     lines = list(corpus)
     for op in ("meanvar", "unitvar", "unitint", "linreg", "whiten", "zca", "pca", "lda", "wlda"):
         lines += [gen_case(r, ctx, op) for _ in range(per)]
